@@ -36,7 +36,11 @@ func vMakeEntry(sh vEntryShape, lvl Level, msg string) Entry {
 // vExpectEntry builds the reference member list for the metadata of an entry (C02: presence, order).
 func vExpectEntry(ref *vRefEnc, cfg *EncoderConfig, sh vEntryShape, msg string, levelEnc, nameEnc, callerEnc int) {
 	if cfg.LevelKey != "" && levelEnc != 0 {
-		ref.add(cfg.LevelKey, &vExp{kind: xAnyStr})
+		if levelEnc >= 2 && vExpectLevel != nil {
+			ref.add(cfg.LevelKey, &vExp{kind: xLevel, i: int64(*vExpectLevel), bits: levelEnc})
+		} else {
+			ref.add(cfg.LevelKey, &vExp{kind: xAnyStr})
+		}
 	}
 	if cfg.TimeKey != "" && sh.timeSet {
 		ref.add(cfg.TimeKey, vExpTime(cfg))
@@ -67,6 +71,9 @@ func vExpectEntry(ref *vRefEnc, cfg *EncoderConfig, sh vEntryShape, msg string, 
 		ref.add(cfg.MessageKey, xs(msg))
 	}
 }
+
+// vExpectLevel, when set, is the entry's level: the level member must then carry its documented text.
+var vExpectLevel *Level
 
 func vPickLevelEncoder(sel int) LevelEncoder {
 	switch sel {
@@ -187,7 +194,9 @@ func VC01EntryEncoders() {
 	sh := vEntryShape{timeSet: true, named: true, caller: true, fn: true, stack: true}
 	ent := vMakeEntry(sh, lvl, "hello")
 	root, ref := vNewRef()
+	vExpectLevel = &lvl
 	vExpectEntry(ref, &cfg, sh, "hello", levelEnc, nameEnc, callerEnc)
+	vExpectLevel = nil
 	vEncodeAndCheck(cfg, ent, true, root, ref, "\n")
 }
 
